@@ -44,9 +44,9 @@ def plan(tier, seed):
     gammas = [1e-3, 0.1, 1.0, 5.0, 50.0, 709.78, 1e5]
     for g in gammas:
         for sgn in (1, -1):
-            specs.append({"name": f"density-g{g:g}{'+' if sgn > 0 else '-'}", "mode": "density", "gamma": g * sgn, "seed": seed, "n": 40000 if tier == "quick" else 400000})
+            specs.append({"name": f"density-g{g:g}{'+' if sgn > 0 else '-'}", "mode": "density", "gamma": g * sgn, "seed": seed, "n": 100000 if tier == "quick" else 600000})
     for j in range(8 if tier == "quick" else 16):
-        specs.append({"name": f"hostile{j}", "mode": "hostile", "j": j, "seed": seed, "cases": 120 if tier == "quick" else 1500})
+        specs.append({"name": f"hostile{j}", "mode": "hostile", "j": j, "seed": seed, "cases": 400 if tier == "quick" else 2500})
     return specs
 
 
